@@ -12,8 +12,8 @@ CONSTANTS
   MPPT = 1
   MaxTicks = 1
   MaxBlocks = 1
-  MaxDev = 3
-  MaxOps = 6
+  MaxDev = 2
+  MaxOps = 5
   StaleClaim = FALSE
   Flds = {"none"}
   Sks = {"no", "tlv", "s0", "s-1", "s=", "s+"}
@@ -21,7 +21,7 @@ CONSTANTS
   RegMeta = 0
   ClaimKinds = {"claim"}
   Bug = "none"
-  EmitMod = 1
+  EmitMod = 7
 CONSTRAINT Bound
 VIEW View
 INVARIANT AllOrNothing
